@@ -9,6 +9,7 @@ from vlib.layout import Layout
 from vlib.mib import pyname
 
 ID = 'C01'
+CONTRACTS = True     # icontract recording contracts ride along (vlib/contracts.py)
 LEVEL = 'exploration'
 RULE = ('seeded generator of well-formed module sets (1-4 modules, OID trees with local/forward/'
         'imported parents, numeric / iso / name(number) spellings, all OID-bearing kinds, traps); '
